@@ -119,8 +119,26 @@ func singleDefs(info *types.Info, body *ast.BlockStmt) map[types.Object]ast.Expr
 	defs := map[types.Object]ast.Expr{}
 	count := map[types.Object]int{}
 	ast.Inspect(body, func(n ast.Node) bool {
+		switch x := n.(type) {
+		case *ast.IncDecStmt:
+			if id, ok := x.X.(*ast.Ident); ok {
+				count[info.ObjectOf(id)] += 2
+			}
+		case *ast.UnaryExpr:
+			if id, ok := x.X.(*ast.Ident); ok && x.Op == token.AND {
+				count[info.ObjectOf(id)] += 2
+			}
+		}
 		as, ok := n.(*ast.AssignStmt)
-		if !ok || len(as.Lhs) != len(as.Rhs) {
+		if !ok {
+			return true
+		}
+		if len(as.Lhs) != len(as.Rhs) {
+			for _, l := range as.Lhs {
+				if id, ok := l.(*ast.Ident); ok {
+					count[info.ObjectOf(id)] += 2
+				}
+			}
 			return true
 		}
 		for i, l := range as.Lhs {
@@ -442,7 +460,7 @@ func (c *Ctx) ringDiscipline(info *types.Info) {
 		return
 	}
 	isLenBuffer := func(e ast.Expr) bool {
-		call, ok := e.(*ast.CallExpr)
+		call, ok := ast.Unparen(e).(*ast.CallExpr)
 		if !ok || len(call.Args) != 1 {
 			return false
 		}
@@ -450,7 +468,7 @@ func (c *Ctx) ringDiscipline(info *types.Info) {
 		if !ok || id.Name != "len" {
 			return false
 		}
-		sel, ok := call.Args[0].(*ast.SelectorExpr)
+		sel, ok := ast.Unparen(call.Args[0]).(*ast.SelectorExpr)
 		return ok && sel.Sel.Name == ringF.buf
 	}
 	// expand: calls of unexported single-expression helpers of the package are replaced by what they return
@@ -476,16 +494,14 @@ func (c *Ctx) ringDiscipline(info *types.Info) {
 	}
 	// nextIndex returns (i+1) % len(buffer)
 	okNext := false
-	if len(next.Decl.Body.List) == 1 {
-		if r, ok := next.Decl.Body.List[0].(*ast.ReturnStmt); ok && len(r.Results) == 1 {
-			if isModLen(r.Results[0]) {
-				be := expand(r.Results[0])
-				lhs := ast.Unparen(be.(*ast.BinaryExpr).X)
-				if add, ok := lhs.(*ast.BinaryExpr); ok && add.Op == token.ADD {
-					if v, ok := constInt(info, add.Y); ok && v == 1 {
-						okNext = true
-					}
-				}
+	if res := returnedExpr(info, next.Decl, nil); res != nil && isModLen(res) {
+		be := expand(res)
+		lhs := ast.Unparen(be.(*ast.BinaryExpr).X)
+		if add, ok := lhs.(*ast.BinaryExpr); ok && add.Op == token.ADD {
+			// the parameter plus one
+			pid, isP := ast.Unparen(add.X).(*ast.Ident)
+			if v, ok := constInt(info, add.Y); ok && v == 1 && isP && identIsParam(info, next.Decl, pid) {
+				okNext = true
 			}
 		}
 	}
@@ -581,6 +597,12 @@ func (c *Ctx) ringInvariant() {
 	}
 	info := hp.TypesInfo
 	methods := 0
+	// inside the ring's methods its own observers are what their bodies say (decided below)
+	dtab.InlineExported = func(fn *types.Func) bool {
+		d := c.P.Decls[fn]
+		return d != nil && d.Decl.Recv != nil && recvTypeName(d) == "Ring" && d.Pkg.PkgPath == hp.PkgPath
+	}
+	defer func() { dtab.InlineExported = nil }()
 	for _, fi := range c.P.Decls {
 		if fi.Decl.Recv == nil || recvTypeName(fi) != "Ring" || fi.Pkg.PkgPath != hp.PkgPath || fi.Decl.Body == nil {
 			continue
@@ -881,4 +903,16 @@ func (c *Ctx) resolveContainerFields() {
 			}
 		}
 	}
+}
+
+func identIsParam(info *types.Info, fd *ast.FuncDecl, id *ast.Ident) bool {
+	obj := info.ObjectOf(id)
+	for _, f := range fd.Type.Params.List {
+		for _, nm := range f.Names {
+			if info.ObjectOf(nm) == obj {
+				return true
+			}
+		}
+	}
+	return false
 }
